@@ -25,6 +25,7 @@
 #include "stubs/deps.h"
 
 static unsigned h_lazy_calls; static const char* h_lazy_in; static char* h_lazy_out; static size_t h_lazy_ret;
+static char h_lazy_at_k;   /* byte g_k (arbitrary but fixed index) of the normalised password as utf8_nfkd_lazy returned it */
 
 size_t contract_nfkd_lazy(const char* str, polyseed_str norm) {
     h_lazy_calls++; h_lazy_in = str; h_lazy_out = norm;
@@ -34,6 +35,7 @@ size_t contract_nfkd_lazy(const char* str, polyseed_str norm) {
     __CPROVER_assume(r < POLYSEED_STR_SIZE);
     norm[r] = '\0';
     h_lazy_ret = r;
+    h_lazy_at_k = (g_k < POLYSEED_STR_SIZE) ? norm[g_k] : 0;
     return r;
 }
 
@@ -55,6 +57,7 @@ polyseed_status polyseed_phrase_decode(const polyseed_phrase phrase, uint_fast16
 polyseed_status polyseed_phrase_decode_explicit(const polyseed_phrase phrase, const polyseed_lang* lang, uint_fast16_t idx_out[POLYSEED_NUM_WORDS]) { __CPROVER_assert(0, "unexpected call"); return 0; }
 
 void harness(void) {
+    GHOST_INDICES_ARBITRARY();
     deps_install();
     __CPROVER_assume(TABLE_OK);
     polyseed_data seed, old, other, other_snap;
@@ -74,6 +77,7 @@ void harness(void) {
     __CPROVER_assert(g_kdf_saltlen == 16, "crypt: 16-byte salt");
     for (unsigned i = 0; i < 16; ++i) __CPROVER_assert(g_kdf_salt_copy[i] == spec_mask_salt(i), "crypt: salt is 'POLYSEED mask' 00 FF FF");
     __CPROVER_assert(g_kdf_iter == SPEC_KDF_ITER && g_kdf_keylen == 32, "crypt: 10000 iterations, 32 mask bytes");
+    __CPROVER_assert(g_k >= h_lazy_ret || g_kdf_pw_at_k == (uint8_t)h_lazy_at_k, "crypt: the KDF password is the normalised password byte for byte (arbitrary position)");
     __CPROVER_assert(spec_crypt_post(old, seed, g_kdf_out), "crypt: new seed = old seed masked by the first 19 KDF bytes (top two bits dropped), flag toggled, check value recomputed");
     __CPROVER_assert(spec_canonical_v(seed), "crypt: the result is canonical for every mask");
     for (int i = 0; i < 8; ++i) __CPROVER_assert(pw[i] == pw_snap[i], "crypt: password unchanged");
